@@ -435,6 +435,9 @@ func TestC05(t *testing.T) {
 		for i := 0; i < vlib.Scale(10, 200); i++ {
 			c05Respelled(ev, driver, i)
 		}
+		for i := 0; i < vlib.Scale(10, 200); i++ {
+			c05NonceStoreFaults(ev, driver, i)
+		}
 	}
 	var wg sync.WaitGroup
 	for i := 0; i < vlib.Scale(6, 30); i++ {
